@@ -193,6 +193,15 @@ def recvLoop {V : Type} (cd : Codec V) (max : Nat) : Nat → Segs → List (Even
 def recvAll {V : Type} (cd : Codec V) (max : Nat) (c : Segs) : List (Event V) :=
   recvLoop cd max (inflight c + 1) c
 
+/-- the peer stalls for longer than the read deadline instead of closing: the `Read` that would
+have seen EOF sees the deadline pass (`handleError` → `ErrTimeout`, tcp.go:288-290) — at the same
+position of the stream, whether that is between two frames or inside one. Nothing the peer writes
+after the stall belongs to the events: the time-out is fatal (router.go:451-455). -/
+def stalled {V : Type} (l : List (Event V)) : List (Event V) :=
+  l.map fun
+    | .closed .eof => .closed .timeout
+    | e => e
+
 /-- what a sender's `c.Send` calls put on the wire, one after the other (tcp.go:189-235) -/
 def wire (bufs : List (List Nat)) : List Nat := (bufs.map encFrame).flatten
 
@@ -301,6 +310,16 @@ def sendable (cd : Codec (List Nat)) : List (List Nat) → List (List Nat) × Bo
   | [] => ([], true)
   | b :: l => if cd.sendable b then let r := sendable cd l; (b :: r.1, r.2) else ([], false)
 
+/-- `<sizes>` or `<sizes>~<sizes>`: the sender stalls (longer than the read deadline) after the
+bytes of the first list; the second list cuts what it writes afterwards -/
+def parseChunks (s : String) : Option (List Nat × Bool) :=
+  match s.splitOn "~" with
+  | [a] => (Util.natList a).map (·, false)
+  | [a, b] => match Util.natList a, Util.natList b with
+    | some a, some _ => some (a, true)
+    | _, _ => none
+  | _ => none
+
 /-- drop the final "peer closed" of a stream that merely has nothing more in flight yet -/
 def live (l : List (Event (List Nat))) : List (Event (List Nat)) :=
   l.filter (fun e => e != .closed .eof)
@@ -311,7 +330,8 @@ def live (l : List (Event (List Nat))) : List (Event (List Nat)) :=
 * `raw <frames> <tail> <chunks>` — a sender `sendRaw`s the frames, then writes `tail` as it is and
   closes; the transport cuts the stream as `chunks`; the receiver calls `receiveRaw` until it fails
 * `unm <buffer>` — `Unmarshal`
-* `loop <frames> <tail> <chunks>` — the same stream into `handleConn`
+* `loop <frames> <tail> <chunks>` — the same stream into `handleConn`; `<chunks>` may be
+  `<sizes>~<sizes>`: the sender stalls after the bytes of the first list (see `stalled`)
 * `send <tcp|local>[/<proxy chunk pattern>] <buffers>` — `Router.Send` of these messages over a live connection and what
   the receiving router does with them
 -/
@@ -336,8 +356,12 @@ def step (s : State) (toks : List String) : State × String :=
     | some b => (s, match unmarshal cd b with | .ok _ => "ok" | .error e => "err:" ++ showErr e)
     | none => (s, "bad-op")
   | ["loop", fr, tl, ch] =>
-    match hexList fr, Util.unhex tl, Util.natList ch with
-    | some fr, some tl, some ch => (s, showEvents (recvAll cd s.max (cut (wire fr ++ tl) ch)))
+    match hexList fr, Util.unhex tl, parseChunks ch with
+    | some fr, some tl, some (ch, false) => (s, showEvents (recvAll cd s.max (cut (wire fr ++ tl) ch)))
+    | some fr, some tl, some (ch, true) =>
+      -- only the bytes written before the stall ever reach the receive loop
+      let seen := (wire fr ++ tl).take (ch.foldl (· + ·) 0)
+      (s, showEvents (stalled (recvAll cd s.max (cut seen ch))))
     | _, _, _ => (s, "bad-op")
   | ["send", tr, bufs] =>
     match hexList bufs with
